@@ -245,7 +245,7 @@ fn common_post(ctx: &mut Ctx, r: &Added, pre: &AirplaneState, vacant: bool) {
     vcheck!(ctx, calls >= 1, "[C12] every DF17 / DF18 frame touches the record of its address");
     vcheck!(ctx, (*r == Added::Yes) == vacant, "[C12] a frame is reported as added exactly when its address was not tracked before it");
     let post = unsafe { G_REC.as_ref().unwrap() };
-    vcheck!(ctx, post.num_messages == pre.num_messages + 1, "[C12] the message count grows by exactly one per DF17 / DF18 frame");
+    vcheck!(ctx, post.num_messages == pre.num_messages + 1, "[C12,C15] the message count grows by exactly one per DF17 / DF18 frame (the counted frames are the ones that refresh the last-heard time)");
 }
 
 /// position report (C12, C13, C14 invariant)
